@@ -10,6 +10,9 @@ facts used are explicit hypotheses: `FEqSymm` (== is symmetric) and `FEqLeGe`
 import Anko.Model.BinOp
 import Anko.Proofs.Equal
 import Anko.Gen.EqualFlow
+import Anko.Props.Tie.Inventory
+import Anko.Props.Tie.StmtFlow
+import Anko.Props.Tie.ExprFlow
 
 namespace Anko.C06
 open Anko
@@ -230,5 +233,24 @@ theorem every_use_of_equality_calls_equal :
 /-! ### Non-vacuity -/
 example : strToInt [49, 48, 48, 48, 48, 48, 48] = some 1000000#64 := by decide   -- "1000000"
 example : strToInt [48, 120, 49, 48] = none := by decide   -- "0x10"
+
+/-! ### Shared source ties
+
+The code this property is anchored in is also written down, leaf statement by leaf statement, by the tables below (each decided once in
+Props/Tie against the table regenerated from /repo on this run). -/
+/-- the branch, loop, try and defer functions (vmStmt.go): `switch` -/
+theorem source_tie_StmtFlow : Gen.StmtFlow.leaves = Tables.stmtFlow := Tie.stmtFlow
+/-- the expression dispatcher and multi-operand forms (vmExpr.go): `in` -/
+theorem source_tie_ExprFlow : Gen.ExprFlow.leaves = Tables.exprFlow := Tie.exprFlow
+
+/-! ### Declaration inventory
+
+Nothing was added to the packages this property is anchored in: their top-level declarations (functions, methods, variables, constants, types with
+the fields of struct types), regenerated from /repo on this run, are the audited ones (Props/Tie/Inventory). A helper, a package-level table or a
+file added there - code no flow table can pin - breaks the tie by name and makes this property's check search for a failing input. -/
+/-- vm/ -/
+theorem declarations_of_Vm_are_the_audited_ones : Tie.ofPkg "vm" Gen.Inventory.decls = Tie.ofPkg "vm" Tables.inventory := Tie.inventoryVm
+/-- ast/ -/
+theorem declarations_of_Ast_are_the_audited_ones : Tie.ofPkg "ast" Gen.Inventory.decls = Tie.ofPkg "ast" Tables.inventory := Tie.inventoryAst
 
 end Anko.C06
